@@ -1,7 +1,7 @@
 (* ===== C01 : formula strings denote the documented Wilkinson term algebra ===== *)
 From Coq Require Import List NArith ZArith Bool Arith.
 Import ListNotations.
-Require Import GenOps Tok Parser Parser2 Parser3 SYReal SYInst TermAlg GenTie FormulaSeq FormulaSeqLaws.
+Require Import GenOps Tok Parser Parser2 Parser3 SYReal SYInst TermAlg GenTie FormulaSeq FormulaSeqLaws Denote.
 Open Scope N_scope.
 
 (* --- the operator table of the model is the one /repo defines now (precedence, associativity, arity, fixity, context rule,
@@ -64,6 +64,43 @@ Example C01_power_two_of_three :
   inl [nm 97; nm 97 ++ nm 98; nm 97 ++ nm 99; nm 98; nm 98 ++ nm 99; nm 99].
 Proof. exact power_two_of_three. Qed.
 
+(* --- layers A and B composed: [denote] is the documented algebra written directly on expression trees ('+' union in first-appearance order,
+       '-' difference, ':' pairwise products, '*' = a + b + a:b, '/' nesting, '%in%' flipped nesting, '**'/'^' powers, unary signs, '.',
+       parentheses transparent).  The token sequence of EVERY precedence-respecting inner expression tree (unbounded nesting) is parsed and
+       evaluated by the parser model to exactly the denotation of the tree --- *)
+Theorem C01_tokens_denote : forall fixed f cx e, ok f e -> inner e ->
+  match to_ast fixed f (toks e) with
+  | inl (Some a) => eval (S (asize a)) cx a
+  | inl None => inl (VSide (SSet []))
+  | inr err => inr err
+  end = lift (denote cx e).
+Proof. exact tokens_denote. Qed.
+Theorem C01_tree_evaluates_to_denotation : forall cx e, inner e -> forall fuel, (depth (ast_of e) < fuel)%nat ->
+  eval fuel cx (ast_of e) = lift (denote cx e).
+Proof. exact eval_denotes. Qed.
+(* the documented identities as equalities between the denotations of whole trees (any sub-expressions a, b) *)
+Theorem C01_tree_star_identity : forall cx star plus colon a b, osem star = SStar -> osem plus = SPlus -> osem colon = SColon ->
+  denote cx (EBin star a b) = denote cx (EBin plus (EBin plus a b) (EBin colon a b)).
+Proof. exact denote_star. Qed.
+Theorem C01_tree_in_identity : forall cx o_in slash a b x y, osem o_in = SIn -> osem slash = SSlash -> denote cx a = inl x -> denote cx b = inl y ->
+  denote cx (EBin o_in b a) = denote cx (EBin slash a b).
+Proof. exact denote_in. Qed.
+Theorem C01_tree_slash_identity : forall cx slash plus colon a b t, osem slash = SSlash -> osem plus = SPlus -> osem colon = SColon ->
+  denote cx a = inl [t] -> denote cx (EBin slash a b) = denote cx (EBin plus a (EBin colon a b)).
+Proof. exact denote_slash_single. Qed.
+Theorem C01_tree_caret_identity : forall cx p1 p2 a b, osem p1 = SPow -> osem p2 = SPow -> denote cx (EBin p1 a b) = denote cx (EBin p2 a b).
+Proof. exact denote_caret. Qed.
+(* non-vacuity: (a + b):c - a  has its hypotheses and denotes {b:c} *)
+Example C01_tokens_denote_example : forall fixed,
+  let e := bin SMinus (bin SColon (EPar false (bin SPlus A B)) C) A in
+  ok fl e /\ inner e /\
+  (match to_ast fixed fl (toks e) with inl (Some a) => eval (S (asize a)) {| avail := None; used_lhs := Some [] |} a | inl None => inl (VSide (SSet [])) | inr err => inr err end)
+  = inl (VSide (SSet [nm 97 ++ nm 99; nm 98 ++ nm 99])).
+Proof.
+  intro fixed. cbn zeta. split; [apply okb_ok; vm_compute; reflexivity|]. split; [vm_compute; intuition|].
+  rewrite (tokens_denote fixed fl); [vm_compute; reflexivity | apply okb_ok; vm_compute; reflexivity | vm_compute; intuition].
+Qed.
+
 (* --- final ordering by interaction degree: a stable sort --- *)
 Theorem C01_degree_order_sorted : forall l, deg_sorted (sort_deg l) = true.
 Proof. exact sort_deg_sorted. Qed.
@@ -75,6 +112,13 @@ Example C01_collapse_regression :
   collapse false [58; 45; 45] 4 = [43] /\ collapse true [58; 45; 45] 4 = [58; 43].
 Proof. split; vm_compute; reflexivity. Qed.
 
+Print Assumptions C01_tokens_denote.
+Print Assumptions C01_tree_evaluates_to_denotation.
+Print Assumptions C01_tree_star_identity.
+Print Assumptions C01_tree_in_identity.
+Print Assumptions C01_tree_slash_identity.
+Print Assumptions C01_tree_caret_identity.
+Print Assumptions C01_tokens_denote_example.
 Print Assumptions C01_operator_table_is_the_code's.
 Print Assumptions C01_expression_trees_parse_to_themselves.
 Print Assumptions C01_parts_parse.
